@@ -151,6 +151,9 @@ impl<X> Scene for ProgScene<X> {
 
     fn setup(&self, exec: &Exec) {
         crate::scenes::STREAM.with(|s| *s.borrow_mut() = None);
+        if self.variant.recreate {
+            crate::scenes::set_alt_conv(true);
+        }
         let (mut owning, base) = match &self.attach {
             Attach::None => {
                 let mut spawn = self.spawn;
@@ -184,11 +187,11 @@ impl<X> Scene for ProgScene<X> {
                 match init {
                     HInit::Addr => h.addr.push(Some(base.clone())),
                     HInit::Own => h.own.push(owning.take()),
-                    HInit::Snd => h.snd.push(Some(base.sender::<Note>())),
+                    HInit::Snd => h.snd.push(Some(crate::scenes::to_sender(&base))),
                     HInit::Cal => h.cal.push(Some(base.caller::<Ask>())),
-                    HInit::WAddr => h.waddr.push(Some(base.downgrade())),
-                    HInit::WSnd => h.wsnd.push(Some(base.weak_sender::<Note>())),
-                    HInit::WCal => h.wcal.push(Some(base.weak_caller::<Ask>())),
+                    HInit::WAddr => h.waddr.push(Some(crate::scenes::to_weak_addr(&base))),
+                    HInit::WSnd => h.wsnd.push(Some(crate::scenes::to_weak_sender(&base))),
+                    HInit::WCal => h.wcal.push(Some(crate::scenes::to_weak_caller(&base))),
                 }
             }
             tables.push(h);
